@@ -1,12 +1,13 @@
 #!/bin/sh
 # runs every claimed check of MANIFEST.json at the given tier (default quick); prints a summary
 tier=${1:-quick}
-cd /verif
+cd "$(dirname "$0")"
 ids=$(python3 -c "import json;print(' '.join(c['property_id'] for c in json.load(open('MANIFEST.json'))['checks']))")
 rc=0
+mkdir -p .work
 for id in $ids; do
   ./verif.sh check $id $tier > .work/all-$id.log 2>&1; e=$?
-  echo "$id exit=$e $(tail -1 .work/all-$id.log | cut -c1-200)"
-  [ $e = 0 ] || rc=1
+  echo "$id exit=$e $(tail -1 .work/all-$id.log | cut -c1-160)"
+  [ $e = 0 ] || { rc=1; grep -v '^KNOWN' .work/all-$id.log | head -20; }
 done
 exit $rc
